@@ -314,9 +314,11 @@ type Res struct {
 	ErrMay  bool   // resolution may fail (an excluded context holds a failing reference)
 	TEx     string // typed view not asserted
 	SEx     string // string view not asserted
+	LSEx    string // string view of some leaf of a whole-value map/list not asserted (stringy containers)
 	UErrMay bool   // the original text of a typed value may be lost (then it cannot go into a string field)
 	Wrapped bool   // a whole-value reference to a non-string value (keeps value + original text)
-	Leak    bool   // shape of listed finding nested-expanded-value
+	Leak    bool   // shape of the repaired finding nested-expanded-value (a wrapped value below a whole-value map/list)
+	SNode   *snode // string view of a whole-value map/list, leaf by leaf (for map[string]string, []string, …)
 	KnownA  bool   // shape of listed finding escaped-ref-rewritten
 }
 
@@ -359,6 +361,48 @@ func (r *Res) absorbOriginal(c ctxRes) {
 			r.UErrMay = true
 		}
 	}
+}
+
+// snode is the string view of a value as a tree: what string-kinded targets
+// must see at each depth.  A leaf carries the original text; when the leaf is a
+// whole-value reference to a map/list it also carries that value's own tree
+// (used when the target still expects a container at that depth).
+type snode struct {
+	M    map[string]*snode
+	L    []*snode
+	Kind string // map list leaf
+	Str  string
+	Raw  any    // leaf that is a literal typed scalar (no text)
+	Sub  *snode // leaf: whole-value reference to a map/list
+}
+
+// project gives what a stringy target with `depth` container levels above its
+// strings (map[string]string: 1, map[string][]string: 2) must receive.
+func (n *snode) project(depth int) any {
+	if n == nil {
+		return nil
+	}
+	switch n.Kind {
+	case "map":
+		m := map[string]any{}
+		for k, c := range n.M {
+			m[k] = c.project(depth - 1)
+		}
+		return m
+	case "list":
+		l := []any{}
+		for _, c := range n.L {
+			l = append(l, c.project(depth-1))
+		}
+		return l
+	}
+	if depth > 0 && n.Sub != nil {
+		return n.Sub.project(depth)
+	}
+	if n.Raw != nil {
+		return n.Raw
+	}
+	return n.Str
 }
 
 // classify parses a provider text the way the RFC describes (YAML): kind is
@@ -580,8 +624,8 @@ func (w *world) evalStruct(v Val, stack []string, depth int) Res {
 	}
 	w.count("whole-struct")
 	r.Wrapped = true
-	var build func(v Val) any
-	build = func(v Val) any {
+	var build func(v Val) (any, *snode)
+	build = func(v Val) (any, *snode) {
 		switch v.K {
 		case "seq":
 			lr := w.evalSeq(v.Seq, stack, depth+1)
@@ -591,62 +635,69 @@ func (w *world) evalStruct(v Val, stack []string, depth int) Res {
 			if lr.TEx != "" && r.TEx == "" {
 				r.TEx = lr.TEx
 			}
+			if lr.SEx != "" && r.LSEx == "" {
+				r.LSEx = lr.SEx
+			}
 			r.ErrMay = r.ErrMay || lr.ErrMay
 			r.UErrMay = r.UErrMay || lr.UErrMay
 			r.KnownA = r.KnownA || lr.KnownA
-			if lr.Wrapped || lr.Leak || lr.TEx != "" {
-				r.Leak = true // (an unasserted leaf may end up as a whole-value reference too)
+			if lr.Wrapped || lr.Leak {
+				r.Leak = true
+				w.count("nested-wrapped-leaf")
+				if lr.Typed == nil && lr.TEx == "" {
+					w.count("nested-wrapped-null-leaf")
+				}
 			}
-			return lr.Typed
+			return lr.Typed, &snode{Kind: "leaf", Str: lr.Str, Sub: lr.SNode}
 		case "raw":
 			var x any
 			_ = yaml.Unmarshal([]byte(v.T), &x)
-			return x
+			return x, &snode{Kind: "leaf", Str: v.T, Raw: x}
 		case "map":
-			m := map[string]any{}
+			m, sn := map[string]any{}, &snode{Kind: "map", M: map[string]*snode{}}
 			for i, k := range v.Keys {
-				m[k] = build(v.Items[i])
+				m[k], sn.M[k] = build(v.Items[i])
 			}
-			return m
+			return m, sn
 		case "list":
-			l := []any{}
+			l, sn := []any{}, &snode{Kind: "list"}
 			for i := range v.Items {
-				l = append(l, build(v.Items[i]))
+				t, c := build(v.Items[i])
+				l, sn.L = append(l, t), append(sn.L, c)
 			}
-			return l
+			return l, sn
 		}
-		return nil
+		return nil, nil
 	}
-	r.Typed = build(v)
+	r.Typed, r.SNode = build(v)
 	r.absorbOriginal(w.evalStr(structSeq(v), stack))
 	return r
 }
 
 // evalVal evaluates a configuration value (string, literal scalar, map, list)
-// into its typed view; strView gives the all-strings view used by
-// map[string]string / []string targets.
-func (w *world) evalVal(v Val) (typed any, str any, agg Res) {
+// into its typed view and its string view (a tree, see snode).
+func (w *world) evalVal(v Val) (typed any, str *snode, agg Res) {
 	switch v.K {
 	case "seq":
 		r := w.evalSeq(v.Seq, nil, 1)
-		return r.Typed, r.Str, r
+		return r.Typed, &snode{Kind: "leaf", Str: r.Str, Sub: r.SNode}, r
 	case "raw":
 		var x any
 		_ = yaml.Unmarshal([]byte(v.T), &x)
-		return x, v.T, Res{}
+		return x, &snode{Kind: "leaf", Str: v.T, Raw: x}, Res{}
 	case "map":
-		tm, sm := map[string]any{}, map[string]any{}
+		tm, sm := map[string]any{}, &snode{Kind: "map", M: map[string]*snode{}}
 		for i, k := range v.Keys {
 			t, s, r := w.evalVal(v.Items[i])
-			tm[k], sm[k] = t, s
+			tm[k], sm.M[k] = t, s
 			mergeRes(&agg, r)
 		}
 		return tm, sm, agg
 	case "list":
-		tl, sl := []any{}, []any{}
+		tl, sl := []any{}, &snode{Kind: "list"}
 		for i := range v.Items {
 			t, s, r := w.evalVal(v.Items[i])
-			tl, sl = append(tl, t), append(sl, s)
+			tl, sl.L = append(tl, t), append(sl.L, s)
 			mergeRes(&agg, r)
 		}
 		return tl, sl, agg
@@ -663,6 +714,9 @@ func mergeRes(a *Res, r Res) {
 	}
 	if a.SEx == "" {
 		a.SEx = r.SEx
+	}
+	if a.LSEx == "" {
+		a.LSEx = r.LSEx
 	}
 	a.ErrMay = a.ErrMay || r.ErrMay
 	a.UErrMay = a.UErrMay || r.UErrMay
